@@ -11,7 +11,7 @@ ROOT = "/verif"
 # outcome of the checks as they were when the change was first tried (before any strengthening)
 FIRST = {
     "C01/1": "missed", "C01/2": "missed", "C05/2": "missed", "C06/1": "missed", "C06/2": "missed",
-    "C07/2": "missed", "C10/2": "missed", "C11/1": "missed", "C12/2": "missed", "C03/4": "missed", "C12/3": "missed",
+    "C07/2": "missed", "C10/2": "missed", "C11/1": "missed", "C12/2": "missed", "C03/4": "missed", "C12/3": "missed", "C01/3": "missed", "C05/3": "missed",
 }
 
 
